@@ -186,3 +186,24 @@ Theorem C02_coercion_hypotheses_satisfiable :
   coercion_safe PBool (JInt (-12)) = true /\ coerce (JInt (-12)) = Some [45; 49; 50]%N /\ wire_valid PInt [45; 49; 50]%N = true.
 Proof. exact coercion_nonvacuous. Qed.
 Print Assumptions C02_coercion_hypotheses_satisfiable.
+
+(* ===== exclusion of explicitly supplied parameters (get_parameters_strategy) ===== *)
+
+(* after popping the explicit names from the location schema, neither required nor properties mention any of them,
+   and every other name is required / declared exactly as before *)
+Theorem C02_exclusion_clears_required : forall names s ns,
+  required_of s = Some ns -> unique_strs ns = true ->
+  exists ns', required_of (exclude_names names s) = Some ns' /\ unique_strs ns' = true /\
+    (forall n, smem n names = true -> smem n ns' = false /\ assoc_mem n (props_of (exclude_names names s)) = false) /\
+    (forall n, smem n names = false ->
+       smem n ns' = smem n ns /\ assoc_mem n (props_of (exclude_names names s)) = assoc_mem n (props_of s)).
+Proof. exact exclusion_clears. Qed.
+Print Assumptions C02_exclusion_clears_required.
+
+Theorem C02_exclusion_hypotheses_satisfiable :
+  required_of s_filter_limit = Some [nm_filter] /\ unique_strs [nm_filter] = true /\
+  exclude_names [nm_filter] s_filter_limit =
+    [KProps [(nm_limit, JObj [(n_type, JStr n_integer)])]; KAddProps false; KType [TObj]; KRequired []] /\
+  valid sub_valid_simple (plain (exclude_names [nm_filter] s_filter_limit)) (JObj [(nm_limit, JInt 0%Z)]) = true.
+Proof. exact exclusion_nonvacuous. Qed.
+Print Assumptions C02_exclusion_hypotheses_satisfiable.
